@@ -137,7 +137,7 @@ def r3(ctx):
                 ctx.ok(rule, s.key, detail)
             continue
         n += 1
-        ent = TT.table_entry(table, s)
+        ent = TT.table_entry(table, s, T)
         if ent is not None:
             detail["discharged_by"] = "D6: " + ent
             ctx.ok(rule, s.key, detail)
